@@ -194,7 +194,7 @@ def c08_nested(d: int, con: int, depth: int, leaf: int, par: bool) -> int:
 @harness(
     prop="C08",
     cubes={"d": range(1, ND), "con": [0, 2, 4, 5]},
-    bounds={"quick": {"L": 2}, "thorough": {"L": 3}},
+    bounds={"quick": {"L": 2}, "thorough": {"L": 4}},
     timeout={"quick": 200, "thorough": 900},
     witness=[dict(d=1, con=0, s=BS), dict(d=2, con=5, s="'")],
     doc="the string leaf is symbolic (any string len<=L): generic-built nested part vs dialect-built, and the dialect's "
